@@ -17,7 +17,7 @@ Init == r = 1 /\ i = 1 /\ st = IF Len(Runs) >= 1 THEN InitAbs(Idx, Runs[1].ty) E
 RejectedDocLeftATrace(e) ==
   e.op = "fromdict_bad" /\ e.obs.err = "" /\ ~SameVal(NormMsg(e.obs.val), st.val)
 Advance == /\ r <= Len(Runs) /\ i <= Len(Runs[r].log) /\ st.bad = ""
-           /\ LET e == Runs[r].log[i] IN ~RejectedDocLeftATrace(e) \/ PrintT(<<"D", Runs[r].id, "a rejected from_dict changed the receiving object">>)
+           /\ LET e == Runs[r].log[i] IN IF RejectedDocLeftATrace(e) THEN PrintT(<<"D", Runs[r].id, "a rejected from_dict changed the receiving object">>) ELSE TRUE
            /\ st' = Step(Idx, Runs[r].ty, st, Runs[r].log[i], JudgeLen)
            /\ i' = i + 1 /\ r' = r
 Finish == /\ r <= Len(Runs) /\ (i > Len(Runs[r].log) \/ st.bad # "")
